@@ -59,6 +59,13 @@ def main():
         return 1
 
     t0 = core.now()
+    import glob
+    for old in glob.glob(os.path.join(core.VERIF, "replays",
+                                      mod.ID + "-*.json")):
+        try:
+            os.unlink(old)
+        except OSError:
+            pass
     errors = []
     try:
         if hasattr(mod, "explore"):
